@@ -214,7 +214,13 @@ def str2num(x, signed=True, n_word=None, n_frac=None, base=10, return_sizes=Fals
         n_frac = _n_frac_max if n_frac is None else n_frac
 
     elif isinstance(x, str):
-        x = x.replace('h', 'x')     # for hex numbers: h -> x
+        # the prefixes the configuration accepts for rendering are understood here: b 0b B 0B (binary), x 0x X 0X h 0h H 0H (hexadecimal)
+        _sign = x[:1] if x[:1] in '+-' else ''
+        _body = x[len(_sign):]
+        if _body[:2].lower() == '0b' or (_body[:1] in ('b', 'B') and base != 16):
+            x = _sign + '0b' + _body[(2 if _body[:1] == '0' else 1):]
+        elif _body[:2].lower() in ('0x', '0h') or _body[:1] in ('x', 'X', 'h', 'H'):
+            x = _sign + '0x' + _body[(2 if _body[:1] == '0' else 1):]
 
         if base == 2 or 'b' in x[:2]:
             # binary
@@ -302,6 +308,9 @@ def hex_repr(x, n_word=None, padding=None, base=10, prefix='0x'):
         pass
     else:
         raise ValueError('base {base} for input value is not supported!')
+
+    if prefix is None:
+        prefix = ''         # (no prefix configured)
 
     if n_word is not None:
         val = prefix + '{0:0{1}X}'.format(x, int(np.ceil(n_word/4)))
